@@ -705,4 +705,213 @@ Qed.
 
 End Complete.
 
+(* ---- Part 3: exclusion -- every report is a visible place ---- *)
+Lemma all_at_spec {A} (f : A -> list node) (chk : list node -> nat -> A -> bool) (l : list A) :
+  forall pos pre, all_at f chk l pos pre = true ->
+  forall j x, nth_error l j = Some x -> chk (pre ++ flat_map f (firstn j l))%list (pos + j) x = true.
+Proof.
+  induction l as [|a l IH]; intros pos pre H j x Hn; [destruct j; discriminate|].
+  simpl in H. apply andb_true_iff in H. destruct H as [H1 H2]. destruct j as [|j]; simpl in Hn.
+  - inversion Hn; subst. simpl. rewrite app_nil_r, Nat.add_0_r. auto.
+  - simpl. rewrite app_assoc. replace (pos + S j) with (S pos + j) by lia. apply IH; auto.
+Qed.
+
+Lemma satb_satisfiesb x : satb x = satisfiesb lit re_search tm x.
+Proof. reflexivity. Qed.
+
+Section Exclude.
+Variable U : list node.
+Hypothesis HU : names_consistent U = true.
+
+Lemma covers_all_rep pre l seen :
+  incl (pre ++ l) U -> covers pre seen -> all_rep pre l = true -> covers (pre ++ l) seen.
+Proof.
+  intros Hi Hc Hr y a Hy Ey. apply in_app_iff in Hy. destruct Hy as [Hy|Hy]; [eauto|].
+  unfold all_rep in Hr. rewrite forallb_forall in Hr. specialize (Hr y Hy).
+  apply same_oid_in_iff in Hr. destruct Hr as [y' [Hy' Eo]].
+  assert (P := consistent_pair _ y' y HU (Hi _ (in_or_app _ _ _ (or_introl Hy'))) (Hi _ (in_or_app _ _ _ (or_intror Hy)))).
+  rewrite Eo, N.eqb_refl in P. unfold anchor_name_eqb in P. rewrite Ey in P.
+  destruct (get_node_anchor y') as [b0|] eqn:Ey'; [|discriminate].
+  apply String.eqb_eq in P. subst b0. eauto.
+Qed.
+
+Definition hits_visible (pre : list node) (n : node) (lc : loc) (hs : list hit) : Prop :=
+  forall h, In h hs -> exists l0 r0 pre' tgt,
+      h_loc h = (lc ++ l0 ++ [r0])%list /\ vreach mt o pre n l0 pre' tgt /\ vlocal pre' tgt r0 (h_kind h).
+
+Definition vis_after (v : node) : Prop :=
+  forall pre bp lc seen r,
+    incl (pre ++ anc_occs v) U -> agree pre seen -> covers pre seen -> exposed lit re_search tm mt o v pre = true ->
+    sfp v bp lc seen = Ok r ->
+    covers (pre ++ anc_occs v) (snd r) /\ hits_visible pre v lc (fst r).
+
+(* both directions of the classification, for a node preceded by pre1 *)
+Lemma classify_sync x s b am s1 pre1 :
+  incl (pre1 ++ self_occ x) U -> agree pre1 s -> covers pre1 s ->
+  sanchor x s b = Ok (am, s1) ->
+  agree (pre1 ++ self_occ x) s1 /\ covers (pre1 ++ self_occ x) s1 /\ is_excl am = is_repeat pre1 x /\
+  is_unsearchable_alias am = is_repeat pre1 x.
+Proof.
+  intros Hi Hag Hc E.
+  destruct (classify_alias x s b) as [am' [s1' [E' [_ [_ [Hx [Ag [Cv [R1 R2]]]]]]]]].
+  rewrite E in E'. inversion E'; subst am' s1'.
+  assert (Hcs : names_consistent (pre1 ++ self_occ x) = true) by (eapply names_consistent_incl; eauto).
+  split; auto. split; auto.
+  assert (Q : is_excl am = is_repeat pre1 x).
+  { destruct (is_excl am) eqn:E1.
+    - symmetry. apply R1; auto.
+    - destruct (is_repeat pre1 x) eqn:E2; auto. exfalso. specialize (R2 pre1 Hc Hcs E2). discriminate. }
+  split; auto. rewrite <- Hx. auto.
+Qed.
+
+Lemma value_part_vis am v tmp lc' pre1 s s1 r :
+  incl ((pre1 ++ self_occ v) ++ anc_occs v) U -> agree pre1 s -> covers pre1 s ->
+  sanchor v s (o_valias o) = Ok (am, s1) -> quiet am ->
+  (if negb (o_valias o) && is_repeat pre1 v then all_rep (pre1 ++ self_occ v) (anc_occs v)
+   else exposed lit re_search tm mt o v (pre1 ++ self_occ v)%list) = true ->
+  vis_after v ->
+  value_part lit re_search mt tm sp o rec am v tmp lc' s1 = Ok r ->
+  covers ((pre1 ++ self_occ v) ++ anc_occs v) (snd r) /\
+  forall h, In h (fst r) ->
+    val_shown o pre1 v /\
+    ((is_leaf v = true /\ o_values o = true /\ satb v = true /\ h = mkhit tmp lc' HValue)
+     \/ (exists l0 r0 pre' tgt, h_loc h = (lc' ++ l0 ++ [r0])%list /\
+                                vreach mt o (pre1 ++ self_occ v)%list v l0 pre' tgt /\ vlocal pre' tgt r0 (h_kind h))).
+Proof.
+  intros Hi Hag Hc Ea Q G IH E.
+  destruct (classify_sync _ _ _ _ _ _ (incl_app_l' _ _ _ Hi) Hag Hc Ea) as [Ag1 [Cv1 [_ Hr]]].
+  assert (Hshown : is_unsearchable_alias am && negb (o_valias o) = false -> val_shown o pre1 v).
+  { intros Hns Hv. rewrite Hv in Hns. simpl in Hns. rewrite andb_true_r in Hns. congruence. }
+  destruct (value_part_cases _ _ _ _ _ _ Q E) as [[Hs ->]|[[Hns [Hcont E']]|[Hns [Hcont [-> F]]]]]; simpl.
+  - split; [|intros h []]. rewrite Hr, andb_comm in Hs. rewrite Hs in G. eapply covers_all_rep; eauto.
+  - rewrite Hr, andb_comm in Hns. rewrite Hns in G.
+    destruct (IH _ _ _ _ _ Hi Ag1 Cv1 G E') as [Cv2 Hv]. split; auto.
+    intros h Hin. split; [apply Hshown; rewrite Hr, andb_comm; auto|]. right. apply Hv; auto.
+  - destruct (not_container_leaf _ Hcont) as [i0 [x ->]]. simpl. rewrite app_nil_r. split; auto.
+    intros h Hin. split; [apply Hshown; auto|]. left.
+    destruct F as [[Hv [Hs F]]|[_ F]]; rewrite F in Hin; [|contradiction].
+    destruct Hin as [<-|[]]. auto.
+Qed.
+
+Lemma seq_step_vis pre bp lc i els j e s rj :
+  incl (pre ++ anc_occs (NSeq i els)) U -> exposed lit re_search tm mt o (NSeq i els) pre = true ->
+  nth_error els j = Some e -> vis_after e ->
+  agree (pre ++ flat_map elem_occs (firstn j els)) s -> covers (pre ++ flat_map elem_occs (firstn j els)) s ->
+  seq_body bp lc e j s = Ok rj ->
+  covers (pre ++ flat_map elem_occs (firstn (S j) els)) (snd rj) /\ hits_visible pre (NSeq i els) lc (fst rj).
+Proof.
+  intros Hi G Hn IH Hag Hc Eb. simpl in Hi, G.
+  pose proof (all_at_spec _ _ _ _ _ G j e Hn) as Gj. simpl in Gj.
+  pose proof (incl_child U elem_occs _ _ _ _ Hi Hn) as Hic. unfold elem_occs in Hic. rewrite app_assoc in Hic.
+  destruct (seq_body_cases _ _ _ _ _ _ Eb) as [am [s1 [Ea [Q Evp]]]].
+  destruct (value_part_vis _ _ _ _ _ _ _ _ Hic Hag Hc Ea Q Gj IH Evp) as [Cv Hv].
+  split.
+  - rewrite (flat_map_firstn_S _ _ _ _ Hn). unfold elem_occs at 2. rewrite !app_assoc. exact Cv.
+  - intros h Hin. destruct (Hv h Hin) as [Hs [[Hl [Hval [Hsat ->]]]|[l0 [r0 [pre' [tgt [El [R L]]]]]]]].
+    + exists [], (RIdx j), pre, (NSeq i els). simpl. split; auto. split; [constructor|].
+      split; auto. exists e. split; auto. left. exists i, els, j. auto.
+    + exists (RIdx j :: l0), r0, pre', tgt. split; [rewrite El, <- app_assoc; reflexivity|]. split; auto.
+      econstructor; eauto.
+Qed.
+
+Lemma skip_merged_false_not_hidden i pos : skip_merged mt o (oid i) pos = false -> ~ merged_hidden mt o (oid i) pos.
+Proof. unfold skip_merged, merged_hidden. intros H [H1 [H2 H3]]. rewrite H1, H2, H3 in H. discriminate. Qed.
+
+Lemma map_step_vis pre bp lc i kvs j kv s rj :
+  incl (pre ++ anc_occs (NMap i kvs)) U -> exposed lit re_search tm mt o (NMap i kvs) pre = true ->
+  nth_error kvs j = Some kv -> vis_after (snd kv) ->
+  agree (pre ++ flat_map entry_occs (firstn j kvs)) s -> covers (pre ++ flat_map entry_occs (firstn j kvs)) s ->
+  map_body i bp lc kv j s = Ok rj ->
+  covers (pre ++ flat_map entry_occs (firstn (S j) kvs)) (snd rj) /\ hits_visible pre (NMap i kvs) lc (fst rj).
+Proof.
+  intros Hi G Hn IH Hag Hc Eb. simpl in Hi, G.
+  pose proof (all_at_spec _ _ _ _ _ G j kv Hn) as Gj. simpl in Gj.
+  pose proof (incl_child U entry_occs _ _ _ _ Hi Hn) as Hic.
+  rewrite (flat_map_firstn_S _ _ _ _ Hn), app_assoc.
+  set (pj := (pre ++ flat_map entry_occs (firstn j kvs))%list) in *.
+  destruct kv as [k v]. simpl in *.
+  destruct (map_body_cases _ _ _ _ _ _ _ Eb) as [[Sk ->]|[Sk [ka [s1 [va [s2 [Ek [Ev [Qk [Qv C]]]]]]]]]]; simpl in *.
+  - rewrite Sk in Gj. split; [|intros h []]. eapply covers_all_rep; eauto.
+  - rewrite Sk in Gj. unfold entry_occs in Hic |- *. simpl in Hic |- *. rewrite !app_assoc in Hic. rewrite !app_assoc.
+    destruct (classify_sync _ _ _ _ _ _ (incl_app_l' _ _ _ (incl_app_l' _ _ _ Hic)) Hag Hc Ek) as [Ag1 [Cv1 [Xk _]]].
+    destruct (classify_sync _ _ _ _ _ _ (incl_app_l' _ _ _ Hic) Ag1 Cv1 Ev) as [Ag2 [Cv2 [Xv _]]].
+    assert (Hks : negb (o_kalias o) && is_excl ka = false -> key_shown o pj k).
+    { intros Hns Hv. rewrite Hv in Hns. simpl in Hns. congruence. }
+    destruct C as [[Xe ->]|[[Xe [Hk [Hsat ->]]]|[Xe [Hno Evp]]]]; simpl.
+    + rewrite Xk in Xe. rewrite Xe in Gj. simpl in Gj. split; [|intros h []]. eapply covers_all_rep; eauto.
+    + rewrite <- satb_satisfiesb, Hk, Hsat in Gj. rewrite orb_true_r in Gj. simpl in Gj.
+      split; [eapply covers_all_rep; eauto|].
+      intros h [<-|[]]. exists [], (key_ref k), pre, (NMap i kvs). simpl. split; auto. split; [constructor|].
+      split; auto. exists k. split; auto. exists i, kvs, j, v. split; auto. split; auto. split; auto.
+      split; [apply skip_merged_false_not_hidden; auto|]. apply Hks; auto.
+    + rewrite Xk in Xe. rewrite Xe in Gj. rewrite <- satb_satisfiesb in Gj.
+      assert (Hkf : o_keys o && satb k = false) by (destruct Hno as [-> | ->]; auto using andb_false_r).
+      rewrite Hkf in Gj. simpl in Gj.
+      destruct (value_part_vis _ _ _ _ _ _ _ _ Hic Ag1 Cv1 Ev Qv Gj IH Evp) as [Cv Hv]. split; auto.
+      intros h Hin. destruct (Hv h Hin) as [Hs [[Hl [Hval [Hsat ->]]]|[l0 [r0 [pre' [tgt [El [R L]]]]]]]].
+      * exists [], (key_ref k), pre, (NMap i kvs). simpl. split; auto. split; [constructor|].
+        split; auto. exists v. split; auto. right. exists i, kvs, j, k. split; auto. split; auto. split; auto.
+        split; [apply skip_merged_false_not_hidden; auto|]. split; auto. apply Hks. rewrite Xk; auto.
+      * exists (key_ref k :: l0), r0, pre', tgt. split; [rewrite El, <- app_assoc; reflexivity|]. split; auto.
+        econstructor; eauto.
+        -- apply skip_merged_false_not_hidden; auto.
+        -- apply Hks. rewrite Xk; auto.
+Qed.
+
+Lemma set_step_vis pre bp lc i els j m s rj :
+  incl (pre ++ anc_occs (NSet i els)) U ->
+  nth_error els j = Some m ->
+  agree (pre ++ flat_map self_occ (firstn j els)) s -> covers (pre ++ flat_map self_occ (firstn j els)) s ->
+  set_body bp lc m j s = Ok rj ->
+  covers (pre ++ flat_map self_occ (firstn (S j) els)) (snd rj) /\ hits_visible pre (NSet i els) lc (fst rj).
+Proof.
+  intros Hi Hn Hag Hc Eb. simpl in Hi.
+  pose proof (incl_child U self_occ _ _ _ _ Hi Hn) as Hic.
+  rewrite (flat_map_firstn_S _ _ _ _ Hn), app_assoc.
+  destruct (set_body_cases _ _ _ _ _ _ Eb) as [ka [s1 [Ek [-> C]]]].
+  destruct (classify_sync _ _ _ _ _ _ Hic Hag Hc Ek) as [Ag1 [Cv1 [Xk _]]]. split; auto.
+  destruct C as [[_ ->]|[[Xe [Hsat ->]]|[_ [_ ->]]]]; [intros h []| |intros h []].
+  intros h [<-|[]]. exists [], (member_ref m), pre, (NSet i els). simpl. split; auto. split; [constructor|].
+  exists m. split; auto. exists i, els, j. split; auto. split; auto. split; auto.
+  intros Hv. rewrite Hv in Xe. simpl in Xe. congruence.
+Qed.
+
+Theorem sfp_visible n : vis_after n.
+Proof.
+  induction n as [i v|i kvs IH|i els IH|i els IH] using node_ind'; intros pre bp lc seen r Hi Hag Hc G E.
+  - simpl in E. inversion E; subst; simpl. rewrite app_nil_r. split; auto. intros h [].
+  - apply sfp_map in E. rewrite Forall_forall in IH.
+    destruct (loop_inv (map_body i bp lc) kvs
+                (fun j s => agree (pre ++ flat_map entry_occs (firstn j kvs)) s /\
+                            covers (pre ++ flat_map entry_occs (firstn j kvs)) s) 0 seen r) as [[_ I1] [_ I3]]; auto.
+    + intros j kv s rj Hn [Hi1 Hi2] Eb. split; [eapply map_step_agree; eauto|].
+      eapply map_step_vis; eauto. apply (IH kv). eapply nth_error_In; eauto.
+    + simpl. rewrite app_nil_r. auto.
+    + rewrite firstn_length_all in I1. split; auto.
+      intros h Hin. destruct (I3 h Hin) as [j [kv [s [rj [Hn [[Hi1 Hi2] [Eb Hh]]]]]]].
+      eapply map_step_vis; eauto. apply (IH kv). eapply nth_error_In; eauto.
+  - rewrite sfp_seq in E. rewrite Forall_forall in IH.
+    destruct (loop_inv (seq_body bp lc) els
+                (fun j s => agree (pre ++ flat_map elem_occs (firstn j els)) s /\
+                            covers (pre ++ flat_map elem_occs (firstn j els)) s) 0 seen r) as [[_ I1] [_ I3]]; auto.
+    + intros j e s rj Hn [Hi1 Hi2] Eb. split; [eapply seq_step_agree; eauto|].
+      eapply seq_step_vis; eauto. apply IH. eapply nth_error_In; eauto.
+    + simpl. rewrite app_nil_r. auto.
+    + rewrite firstn_length_all in I1. split; auto.
+      intros h Hin. destruct (I3 h Hin) as [j [e [s [rj [Hn [[Hi1 Hi2] [Eb Hh]]]]]]].
+      eapply seq_step_vis; eauto. apply IH. eapply nth_error_In; eauto.
+  - rewrite sfp_set in E.
+    destruct (loop_inv (set_body bp lc) els
+                (fun j s => agree (pre ++ flat_map self_occ (firstn j els)) s /\
+                            covers (pre ++ flat_map self_occ (firstn j els)) s) 0 seen r) as [[_ I1] [_ I3]]; auto.
+    + intros j m s rj Hn [Hi1 Hi2] Eb. split; [eapply set_step_agree; eauto|].
+      eapply set_step_vis; eauto.
+    + simpl. rewrite app_nil_r. auto.
+    + rewrite firstn_length_all in I1. split; auto.
+      intros h Hin. destruct (I3 h Hin) as [j [m [s [rj [Hn [[Hi1 Hi2] [Eb Hh]]]]]]].
+      eapply set_step_vis; eauto.
+Qed.
+
+End Exclude.
+
 End Alias.
